@@ -71,13 +71,15 @@ ChildGeom  == Stateless("childgeom", ChildGeomOK(E))
 QuintMap   == Stateless("quintmap", QuintMapOK(E) /\ Drift(QuintMapPinOK(E), "relabelling differs from v0.6.2"))
 QuintMapPin == Stateless("quintmappin", QuintMapOK(E) /\ QuintMapPinOK(E))
 
+Call       == Stateless("call", CallOK(E))
+
 TraceNext ==
   \/ Reset \/ Codec \/ DecodeEv \/ HexFmtEv \/ HexParseEv
   \/ SortedBlock \/ AncPair \/ RunBlock
   \/ Children \/ ParentComp \/ ChildComp \/ LevelBlock \/ LevelEnd
   \/ Uncompact \/ Compact8 \/ Compact10 \/ CompactPair
   \/ Anchors \/ AnchorsPin \/ AnchorsEnd \/ RelConfig \/ RelFact \/ CoverFact \/ RelEnd \/ ChildGeom
-  \/ QuintMap \/ QuintMapPin
+  \/ QuintMap \/ QuintMapPin \/ Call
 
 TraceSpec == TraceInit /\ [][TraceNext]_vars
 
